@@ -322,7 +322,7 @@ def run_shard(spec, seed, tier):
     res = ShardResult()
     scheme = spec["scheme"]
     if spec["kind"] == "hyp":
-        n = 60 if tier == "quick" else 500
+        n = 200 if tier == "quick" else 2500
         if scheme == "CGKO06.SSE2":
             n //= 2
         hyp.search(res, st_case(scheme), body, seed, n)
